@@ -93,6 +93,12 @@ def run_case(ctx, rng, idx):
     c = h.copy()
     if same_count_edit(rng, c, directed=True):
         evaluate(ctx, rng, idx, c)
+    if rng.random() < 0.3:  # the same hypergraph reached through other calls (copy of a copy / clear() and re-insertion)
+        from ..mutate import second_order
+
+        lab, g2 = second_order(rng, h, directed=True)
+        ctx.event("re-evaluated-on-" + lab)
+        evaluate(ctx, rng, idx, g2)
 
 
 def evaluate(ctx, rng, idx, h):
